@@ -127,3 +127,97 @@ Theorem C08_errmsg_buffer_untouched_without_buffer : forall (f : buffer) (maxlen
   maxlen <= 0 -> ctfail f maxlen msg = (f, None).
 Proof. exact errmsg_buffer_untouched. Qed.
 Print Assumptions C08_errmsg_buffer_untouched_without_buffer.
+
+(* ------------------------------------------------------------------ permitted alphabets (Rt/Alphabet.v)
+   [a] is the canonical alphabet (sorted, disjoint intervals; ANY number of them, ANY codes >= 0);
+   [table_of_alphabet a] is the initialiser asn1c prints for permitted_alphabet_table_N[]. *)
+From A1 Require Import Rt.Alphabet Rt.AlphabetProofs.
+
+(* lookup in the emitted table = membership in the alphabet, for every code *)
+Theorem C08_alphabet_table_lookup_exact : forall a c, wf_alpha a -> 0 <= c ->
+  (lookup (table_of_alphabet a) c <> 0 <-> in_alpha a c = true).
+Proof. exact table_lookup_exact. Qed.
+Print Assumptions C08_alphabet_table_lookup_exact.
+
+(* cell = rank of the character among the permitted ones *)
+Theorem C08_alphabet_table_cell_is_rank : forall a c, wf_alpha a -> in_alpha a c = true ->
+  lookup (table_of_alphabet a) c = rank a c.
+Proof. exact table_cell_is_rank. Qed.
+Print Assumptions C08_alphabet_table_cell_is_rank.
+
+(* whole rows of 16, the row of the highest character included, inside the declared array *)
+Theorem C08_alphabet_table_rows : forall a, wf_alpha a ->
+  zlength (table_of_alphabet a) mod 16 = 0 /\
+  alpha_stop a < zlength (table_of_alphabet a) <= alpha_stop a + 16 /\
+  forall size, size mod 16 = 0 -> alpha_stop a < size -> zlength (table_of_alphabet a) <= size.
+Proof. exact table_rows. Qed.
+Print Assumptions C08_alphabet_table_rows.
+
+Theorem C08_alphabet_code2value_exact : forall a size c, wf_alpha a ->
+  (In c (code2value a size) <-> 0 <= c < size /\ in_alpha a c = true).
+Proof. exact code2value_exact. Qed.
+Print Assumptions C08_alphabet_code2value_exact.
+
+Theorem C08_alphabet_code2value_cardinal : forall a size, wf_alpha a -> alpha_stop a < size ->
+  cardinal (table_of_alphabet a) = zlength (code2value a size).
+Proof. exact code2value_cardinal. Qed.
+Print Assumptions C08_alphabet_code2value_cardinal.
+
+(* the generated loop (table or range comparisons, 1-, 2-, 4-octet units) decides membership of
+   every character exactly *)
+Theorem C08_alphabet_check_exact : forall k gs a units, wf_alpha a -> k <> KU -> alpha_stop a <= natural_stop k ->
+  Forall (fun cv => 0 <= cv <= natural_stop k) units ->
+  alpha_check k gs a units = alpha_sat a units.
+Proof. exact alpha_check_exact. Qed.
+Print Assumptions C08_alphabet_check_exact.
+
+Theorem C08_alphabet_check_utf8_table_partial : forall gs a octets, wf_alpha a -> use_table KU a = true ->
+  Forall (fun b => 0 <= b) octets ->
+  alpha_check KU gs a octets = forallb (fun b => (b <? 128) && in_alpha a b) octets.
+Proof. exact alpha_check_utf8_table. Qed.
+Print Assumptions C08_alphabet_check_utf8_table_partial.
+
+(* finding C08-utf8-from-unchecked *)
+Theorem C08_alphabet_check_utf8_refuted : exists gs a units,
+  wf_alpha a /\ alpha_check KU gs a units = true /\ alpha_sat a units = false.
+Proof. exact alpha_check_utf8_refuted. Qed.
+Print Assumptions C08_alphabet_check_utf8_refuted.
+
+(* rounding the DISTANCE range_stop - range_start up to rows of 16 (instead of the COUNT of cells)
+   is not what the code does, and would be wrong: *)
+Theorem C08_alphabet_distance_rounding_refuted : exists a c, wf_alpha a /\ in_alpha a c = true /\
+  lookup (cells_upto (round16_distance (alpha_stop a)) a) c = 0 /\
+  lookup (table_of_alphabet a) c <> 0.
+Proof. exact distance_rounding_refuted. Qed.
+Print Assumptions C08_alphabet_distance_rounding_refuted.
+
+Theorem C08_alphabet_distance_rounding_loses_top : forall a, wf_alpha a -> alpha_stop a mod 16 = 0 ->
+  in_alpha a (alpha_stop a) = true /\
+  lookup (cells_upto (round16_distance (alpha_stop a)) a) (alpha_stop a) = 0.
+Proof. exact distance_rounding_loses_top. Qed.
+Print Assumptions C08_alphabet_distance_rounding_loses_top.
+
+(* ------------------------------------------------------------------ hand-over to the element walker (Rt/ConstraintsWalk.v)
+   a list type reached through a reference that carries its own SIZE (`T ::= L (SIZE(..))`, member
+   `m L (SIZE(..))`): the generated checker accepts iff the SIZE test passes AND every element passes its
+   own checker — no side condition on the constraints. *)
+From A1 Require Import Rt.ConstraintsWalk.
+
+Theorem C08_reference_definition_checks_elements : forall w sz e vs,
+  check w (CRef true (CSeqOf sz e)) (VList vs) = ROk <->
+  size_check sz (zlength vs) = ROk /\ forall v, In v vs -> chk w e true v = ROk.
+Proof. exact reference_definition_checks_elements. Qed.
+Print Assumptions C08_reference_definition_checks_elements.
+
+Theorem C08_slot_list_checks_elements : forall w sz e vs,
+  chk w (CSeqOf sz e) true (VList vs) = ROk <->
+  size_check sz (zlength vs) = ROk /\ forall v, In v vs -> chk w e true v = ROk.
+Proof. exact slot_list_checks_elements. Qed.
+Print Assumptions C08_slot_list_checks_elements.
+
+Theorem C08_reference_definition_rejects_bad_element : forall w sz e pre x post why,
+  size_check sz (zlength (pre ++ x :: post)) = ROk ->
+  (forall v, In v pre -> chk w e true v = ROk) -> chk w e true x = RFail why ->
+  check w (CRef true (CSeqOf sz e)) (VList (pre ++ x :: post)) = RFail why.
+Proof. exact reference_definition_rejects_bad_element. Qed.
+Print Assumptions C08_reference_definition_rejects_bad_element.
